@@ -42,6 +42,20 @@ def subharnesses(tier):
         subs.append(('seq-%s-expire_and_recreate' % sq.replace(' ', '_'),
                      {'kind': 'seq', 'seq': sq.split(), 'expiries': 2,
                       'recreate': True}))
+    # the master removes a node's registrations behind its back
+    # (presence.kill_node after a presence blip: the nodes vanish, the service
+    # still remembers them), the other host registers the instance, and the
+    # first host is asked again
+    for x in ('C1b', 'C2b'):
+        for y in ('C1a', 'C2a', 'D1a', 'C2a D1a', 'C2a C2a'):
+            sq = 'C1a Ka %s %s' % (x, y)
+            for nexp in (0, 1):
+                subs.append(('seq-%s-expiries%d' % (sq.replace(' ', '_'),
+                                                    nexp),
+                             {'kind': 'seq', 'seq': sq.split(),
+                              'expiries': nexp}))
+    subs.append(('seq-C1a_Ka_C2a-expiries0',
+                 {'kind': 'seq', 'seq': 'C1a Ka C2a'.split(), 'expiries': 0}))
     for what in ('running', 'endpoints', 'identity', 'unschedule'):
         subs.append(('unregister-' + what, {'kind': 'unregister',
                                             'what': what}))
@@ -111,6 +125,16 @@ def _seq(S, spec):
 
     tree.before_call = before_call
     for step, req in enumerate(spec['seq']):
+        if req[0] == 'K':
+            # nodes of host req[1] deleted by a third party (the master)
+            victim = svcs[req[1]]._zk.session
+            for p in [p for p, nd in tree.nodes.items()
+                      if nd.owner == victim]:
+                del tree.nodes[p]
+            for p in [p for p, (nn, _c) in owner_of.items() if nn == req[1]]:
+                del owner_of[p]
+            S.reach('killed_behind_its_back')
+            continue
         op, c, n = req[0], req[1], req[2]
         svc = svcs[n]
         actor[0] = n
@@ -223,5 +247,5 @@ META = {
         'update / ensure_deleted'],
     'reach_required': ['sequence_done', 'create_succeeded', 'create_deferred',
                        'delete_done', 'session_expired_mid_request',
-                       'unregistered'],
+                       'unregistered', 'killed_behind_its_back'],
 }
